@@ -25,6 +25,9 @@ template.py `Template.__init__`                   module_id = re.sub(r"\\W", "_"
 ext/beaker_cache.py `BeakerCacheImpl`             the names it defines (does it override `CacheImpl.set`?); `_get_cache`:
                                                   `starttime` in the per-call arguments unconditionally
 codegen.py  `visitBlockTag`                       is the block's return value written where the block stands?
+codegen.py  `write_variable_declares`             ends, unconditionally, with `__M_writer = context.writer()` (so the cache
+                                                  decorator, which calls it, writes to the buffer on top at call time)
+runtime.py  `_inherit_from`, `_populate_self_namespace`   `local` = the namespace of the template whose callables run
 """
 from __future__ import annotations
 
@@ -346,6 +349,32 @@ def _gen(repo) -> str:
         raise RegenError("%s: visitBlockTag: anonymous and named blocks are called differently: %r" % (rel_g, lines_emitted))
     block_result_written = written[0]
 
+    # ---- codegen: the cache decorator fetches the writer itself (buffer on top at CALL time) ---------------------------
+    wvd = find_func(grm.body, "write_variable_declares", rel_g)
+    last = wvd.body[-1]
+    writer_refetched = (isinstance(last, ast.Expr) and isinstance(last.value, ast.Call)
+                        and ast.unparse(last.value.func) == "self.printer.writeline" and len(last.value.args) == 1
+                        and isinstance(last.value.args[0], ast.Constant)
+                        and last.value.args[0].value == "__M_writer = context.writer()")
+    deco_declares = [n for n in ast.walk(wcd) if isinstance(n, ast.Call) and ast.unparse(n.func) == "self.write_variable_declares"]
+    # ... before it emits the wrapper's `__M_writer(...)` / `return ...` line
+    decorator_fetches_writer = writer_refetched and len(deco_declares) == 1
+
+    # ---- runtime._inherit_from: `local` in the context an inherited template runs with is that template's namespace -----
+    rel_r = "mako/runtime.py"
+    tr = parse(repo, rel_r)
+    inh = find_func(tr.body, "_inherit_from", rel_r)
+    local_is_own = False
+    for n in ast.walk(inh):
+        if isinstance(n, ast.Assign) and ast.unparse(n.value) == "ih.inherits":
+            tg = sorted(ast.unparse(t) for t in n.targets)
+            if "lclcontext._data['local']" in tg:
+                local_is_own = True
+    psn = find_func(tr.body, "_populate_self_namespace", rel_r)
+    self_local = any(isinstance(n, ast.Assign) and ast.unparse(n.value) == "self_ns"
+                     and any(ast.unparse(t) == "context._data['local']" for t in n.targets) for n in ast.walk(psn))
+    deco_uses_local = all("context.get('local')." in t and "cache._ctx_get_or_create(" in t for t in fmt_texts)
+
     def b(x):
         return "true" if x else "false"
 
@@ -403,6 +432,12 @@ def _gen(repo) -> str:
          "def beakerStarttimeReachesCalls : Bool := %s" % b(starttime_passed_on),
          "/-- `Cache.__init__`: `self.starttime = %s` -/" % cstart,
          "def starttimeIsModuleModifiedTime : Bool := %s" % b(cstart == "template.module._modified_time"),
+         "/-- `write_cache_decorator` calls `write_variable_declares`, whose last statement - unconditionally - emits "
+         "`__M_writer = context.writer()`: the wrapper writes to the buffer on top when it is CALLED -/",
+         "def decoratorFetchesWriter : Bool := %s" % b(decorator_fetches_writer),
+         "/-- the generated wrapper asks `context.get('local').cache`; `runtime._inherit_from` sets `local` of the context an "
+         "inherited template runs with to that template's own namespace, `_populate_self_namespace` does so for the rendered one -/",
+         "def localIsDeclaringTemplate : Bool := %s" % b(local_is_own and self_local and deco_uses_local),
          "/-- `visitBlockTag` writes what the block's callable returns (`__M_writer(f() or '')`) at the block's place -/",
          "def blockResultWritten : Bool := %s" % b(block_result_written),
          "/-- `Template.__init__`: `module_id = re.sub(%r, %r, uri)` -/" % (mod_pat, mod_rep),
